@@ -515,7 +515,7 @@ class List(BlockToken):
                 # the next item belongs to a new list: stop before reading it. (Reading it first and
                 # discarding the result afterwards makes nested lists take exponential time.)
                 break
-            output, next_marker = ListItem.read(lines, next_marker)
+            output, next_marker = ListItem.read(lines, next_marker, leader)
             item_leader = output[3]
             if leader is None:
                 leader = item_leader
@@ -616,7 +616,7 @@ class ListItem(BlockToken):
         return indentation, prepend, leader, content
 
     @classmethod
-    def read(cls, lines, prev_marker=None):
+    def read(cls, lines, prev_marker=None, list_leader=None):
         next_marker = None
         line_buffer = []
 
@@ -673,6 +673,13 @@ class ListItem(BlockToken):
                     break
                 # ...or it's a new list item
                 if marker_info is not None:
+                    if not List.same_marker_type(list_leader or leader, marker_info[2]):
+                        # an item of another list: this list ends here, and the blank lines
+                        # in front of the new list are not part of the item.
+                        for _ in range(newline_count):
+                            lines.backstep()
+                            del line_buffer[-1]
+                        break
                     next_marker = marker_info
                     break
                 # ...or the line above it was blank
